@@ -613,6 +613,13 @@ def c09(rec):
     p2s = {p: frozenset() for p in plates & elim}
     judge("modified", lambda: prod(modified_partial_sum_product(plus, times, factors, elim, p2s)))
     judge("dynamic", lambda: prod(dynamic_partial_sum_product(plus, times, factors, elim, p2s)))
+    # "Plates are passed with an empty step" (docstring): ALL plates, eliminated or not - a plate
+    # that is not eliminated must stay a batch input (the first version of this harness listed
+    # only the eliminated plates and thereby hid a defect, see DESIGN.md 0.3)
+    p2all = {p: frozenset() for p in plates}
+    if p2all != p2s:
+        judge("modified_all_plates", lambda: prod(modified_partial_sum_product(plus, times, factors, elim, p2all)))
+        judge("dynamic_all_plates", lambda: prod(dynamic_partial_sum_product(plus, times, factors, elim, p2all)))
     backend = EINSUM_BACKENDS.get((rec["plus"], rec["times"]))
     if backend and not rec.get("param"):       # einsum operands are tensors
         from funsor.einsum import einsum, naive_plated_einsum
